@@ -1,5 +1,5 @@
 (* ClientLTSLive.v — C13: recovery is INEVITABLE when the environment is quiet.
-   Builds on ClientLTSProofs.v (all four repairs on: [trans k true true true true true]).
+   Builds on ClientLTSProofs.v (all four repairs on: [trans k sd true true true true true]).
 
    A. [quiet a]: the labels that are steps of the client's own machinery with a gateway that accepts:
         connect():   AConnEntry, AImplOpened, AImplOk (any status-callback outcome), ABackoffDone (the retry timer),
@@ -46,6 +46,8 @@ Definition quiet (a : act) : bool :=
   | AConnEntry _ | AImplOpened | AImplOk _ | ABackoffDone | AConnCbDone | ACancelWaitDone
   | ARxStart | ARxIter _ | ARxSleepDone _ | ARxCbDone | ARxCancelled | AOldRxCancelled
   | AConsStart | AConsGot _ | AConsCbDone | AConsCancelled | ASendCbDone => true
+  | ASeedStart | ASeedCbDone _ => true                         (* the seeding task: its timers, its sends ... *)
+  | ASeedTimer o _ | ASeedDrainDone o _ => match o with SFault _ => false | _ => true end   (* ... unless the write fails *)
   | _ => false
   end.
 Definition realistic (x : g) (a : act) : bool :=
@@ -59,22 +61,24 @@ Definition qstep (x : g) (a : act) : bool := quiet a && realistic x a.
 Definition dirty (x : g) : bool := eof x || rexc x || (0 <? buf x).
 Definition b2n (b : bool) : nat := if b then 1 else 0.
 Definition hold_w (h : holder) : nat :=
-  match h with HNone => 0 | HCancelWait => 6 | HStatusCb => 7 | HAwaitDrain _ => 8 | HAwaitImpl _ => 9 | HBackoff _ => 10 end.
+  match h with HNone => 0 | HCancelWait => 21 | HStatusCb => 22 | HAwaitDrain _ => 23 | HAwaitImpl _ => 24 | HBackoff _ => 25 end.
 Definition hold_late (h : holder) : bool := match h with HStatusCb | HCancelWait => true | _ => false end.
 Definition hold_noreset (h : holder) : bool := match h with HAwaitDrain _ | HStatusCb | HCancelWait => true | _ => false end.
 Definition rx_w (r : rxs) : nat :=
-  match r with RNone | RDone => 0 | RCreated => 4 | RRun => 3 | RWait => 2 | RSleep30 => 2 | RInCb => 11 end.
+  match r with RNone | RDone => 0 | RCreated => 4 | RRun => 3 | RWait => 2 | RSleep30 => 2 | RInCb => 26 end.
 Definition can_fault (x : g) : bool :=
   match rx x with RCreated | RRun | RWait => dirty x | RSleep30 => true | _ => false end.
 Definition cons_w (c : conss) : nat := match c with CDone => 0 | CWait | CRun => 1 | CInCb | CNew => 2 end.
 Definition st_disc (s : cst) : bool := match s with Disc => true | _ => false end.
 
 Definition lmu (x : g) : nat :=
-  10 * pending_connects x + 11 * send_cb x + old_creq x + hold_w (hold x)
-  + 21 * b2n (hold_noreset (hold x) && dirty x)
-  + 10 * b2n (st_disc (st x) && hold_late (hold x))
-  + rx_w (rx x) + 21 * b2n (can_fault x) + cons_w (cons x)
-  + 5 * Z.to_nat (buf x) + 3 * Z.to_nat (q x).
+  25 * pending_connects x + 26 * send_cb x + old_creq x + hold_w (hold x)
+  + 51 * b2n (hold_noreset (hold x) && dirty x)
+  + 25 * b2n (st_disc (st x) && hold_late (hold x))
+  + rx_w (rx x) + 51 * b2n (can_fault x) + cons_w (cons x)
+  + 5 * Z.to_nat (buf x) + 3 * Z.to_nat (q x)
+  (* seeding tasks: a task about to be created by connect() is in hold_w (15 = 5 + 2 * 5) *)
+  + 5 * seed_new x + 4 * seed_sleep x + 2 * seed_drain x + 27 * seed_cb x + 5 * seed_more x + seed_susp x.
 
 Section Facts.
 Variable k : kind.
@@ -165,12 +169,13 @@ Ltac rd b qq :=
 
 Section Live.
 Variable k : kind.
-Notation T := (trans k true true true true true).
-Notation R := (run k true true true true true).
-Notation reach := (reachable k true true true true true).
+Variable sd : bool.
+Notation T := (trans k sd true true true true true).
+Notation R := (run k sd true true true true true).
+Notation reach := (reachable k sd true true true true true).
 
 (* ---------------- B. termination ---------------- *)
-Lemma lmu_step x a y : qstep x a = true -> trans k true true true true true x a = Some y -> (lmu y < lmu x)%nat.
+Lemma lmu_step x a y : qstep x a = true -> trans k sd true true true true true x a = Some y -> (lmu y < lmu x)%nat.
 Proof.
   unfold qstep, realistic, lmu, can_fault, dirty. intros Q. destruct x; cbn in *. destruct a; try discriminate Q.
   all: step_cases ltac:(mu_fin).
@@ -182,7 +187,7 @@ Definition rx_reading (r : rxs) : bool := match r with RCreated | RRun | RWait |
 Definition NA (x : g) : Prop :=
   (rx x = RRun -> rx_creq x = false) /\ (cons x = CRun -> cons_creq x = false /\ 0 < q x) /\ 0 <= buf x /\ 0 <= q x.
 
-Lemma NA_step x a y : NA x -> trans k true true true true true x a = Some y -> NA y.
+Lemma NA_step x a y : NA x -> trans k sd true true true true true x a = Some y -> NA y.
 Proof.
   unfold NA. intros (A1 & A2 & A3 & A4). destruct x; cbn in *. destruct a.
   all: step_cases ltac:(
@@ -201,14 +206,15 @@ Qed.
 
 Definition NB (x : g) : Prop :=
   (st x <> Closed -> cons_creq x = false /\ cons x <> CDone /\ (rx_creq x = true -> hold x = HCancelWait)) /\
-  (trace x = [] -> rx x = RNone /\ st x = Disc /\ send_cb x = 0%nat /\ hold_late (hold x) = false) /\
+  (trace x = [] -> rx x = RNone /\ st x = Disc /\ send_cb x = 0%nat /\ hold_late (hold x) = false /\
+                   seed_new x = 0%nat /\ seed_sleep x = 0%nat /\ seed_drain x = 0%nat /\ seed_cb x = 0%nat) /\
   (st x = Conn -> hold x = HNone -> rx_reading (rx x) = true).
 
 (* a further close() call is only asleep after the first one has started (part of K2, ClientLTSProofs.v) *)
 Definition CQ (x : g) : Prop := (0 < c2_rx x + c2_cons x)%nat -> closing x <> KNone.
 
 Lemma NB_step x a y : hold_lock_ok x -> closed_iff_closing x -> CQ x -> NB x ->
-  trans k true true true true true x a = Some y -> NB y.
+  trans k sd true true true true true x a = Some y -> NB y.
 Proof.
   unfold hold_lock_ok, closed_iff_closing, CQ, NB, rx_reading, hold_late. intros HL C Cq (B1 & B2 & B3).
   destruct x; cbn in *. destruct a.
@@ -221,10 +227,12 @@ Definition unreadable (x : g) : Prop :=
   eof x = false /\ rexc x = false /\ match k with KEByte => buf x < 13 | _ => buf x = 0 end.
 Definition rest_connected (x : g) : Prop :=
   st x = Conn /\ lock x = false /\ hold x = HNone /\ pending_connects x = 0%nat /\ send_cb x = 0%nat /\ old_creq x = 0%nat /\
-  rx x = RWait /\ rx_creq x = false /\ unreadable x /\ cons x = CWait /\ cons_creq x = false /\ q x = 0.
+  rx x = RWait /\ rx_creq x = false /\ unreadable x /\ cons x = CWait /\ cons_creq x = false /\ q x = 0 /\
+  seed_new x = 0%nat /\ seed_sleep x = 0%nat /\ seed_drain x = 0%nat /\ seed_cb x = 0%nat.   (* every seeding task has finished *)
 Definition rest_idle (x : g) : Prop :=
   st x = Disc /\ trace x = [] /\ lock x = false /\ hold x = HNone /\ pending_connects x = 0%nat /\ send_cb x = 0%nat /\
-  old_creq x = 0%nat /\ rx x = RNone /\ cons x = CWait /\ q x = 0.
+  old_creq x = 0%nat /\ rx x = RNone /\ cons x = CWait /\ q x = 0 /\
+  seed_new x = 0%nat /\ seed_sleep x = 0%nat /\ seed_drain x = 0%nat /\ seed_cb x = 0%nat.
 
 Theorem enabled_or_rest x : hold_lock_ok x -> NA x -> NB x -> I2 x -> st x <> Closed ->
   (exists a, qstep x a = true /\ T x a <> None) \/ rest_connected x \/ rest_idle x.
@@ -247,6 +255,10 @@ Proof.
             first [enav (AImplOk CbNone) | enav (AImplOk CbRet) | enav ABackoffDone | enav AConnCbDone | enav ACancelWaitDone]).
   all: (destruct send_cb; [| enav ASendCbDone]).
   all: (destruct old_creq; [| enav AOldRxCancelled]).
+  all: (destruct seed_new; [| enav ASeedStart]).
+  all: (destruct seed_sleep; [| enav (ASeedTimer SReturn false)]).
+  all: (destruct seed_drain; [| enav (ASeedDrainDone SReturn false)]).
+  all: (destruct seed_cb; [| enav (ASeedCbDone false)]).
   all: (destruct rx_creq; [specialize (B1c eq_refl); discriminate|]).
   all: try enav ARxStart.
   all: try enav ARxCbDone.
@@ -257,7 +269,7 @@ Proof.
   all: assert (q = 0) by lia; subst q.
   all: destruct st; try congruence.
   all: try (specialize (B3 eq_refl eq_refl); discriminate).
-  all: try (destruct (J eq_refl) as [Jt|[Jt|[Jt|[[Jt _]|Jt]]]]; try discriminate; try lia;
+  all: try (destruct (J eq_refl) as [Jt|[Jt|[Jt|[[Jt _]|[Jt|Jt]]]]]; try discriminate; try lia;
             destruct (B2 Jt) as (B2a & _); try discriminate;
             right; right; repeat split; auto).
   (* RWait, CONNECTED or not: is anything consumable? *)
@@ -270,7 +282,7 @@ Definition stuck_quiet (x : g) : Prop := forall a, qstep x a = true -> T x a = N
 
 Lemma RNA x : reach x -> NA x.
 Proof.
-  apply (reachable_invariant k true true true true true NA).
+  apply (reachable_invariant k sd true true true true true NA).
   - unfold NA; simpl; repeat split; intros; try discriminate; lia.
   - intros y a z A H. eapply NA_step; eauto.
 Qed.
@@ -279,7 +291,7 @@ Lemma RNB x : reach x -> I0 x /\ NB x.
 Proof.
   intros H.
   assert (I0 x /\ K2 x /\ NB x) as (A & _ & B); [|split; assumption].
-  revert x H. apply (reachable_invariant k true true true true true (fun x => I0 x /\ K2 x /\ NB x)).
+  revert x H. apply (reachable_invariant k sd true true true true true (fun x => I0 x /\ K2 x /\ NB x)).
   - split; [apply Inv_init|]. split; [unfold K2; simpl; lia|].
     unfold NB; simpl. repeat split; intros; auto; try discriminate; try congruence.
   - intros y a z (A & Kk & B) H. pose proof A as (A1 & _ & A3).
@@ -289,7 +301,7 @@ Qed.
 
 Theorem no_deadlock x : reach x -> st x <> Closed -> stuck_quiet x -> rest_connected x \/ rest_idle x.
 Proof.
-  intros H C S. pose proof (RNA x H) as A. pose proof (RNB x H) as ((A0 & _) & B). pose proof (R2 k x H) as (_ & J).
+  intros H C S. pose proof (RNA x H) as A. pose proof (RNB x H) as ((A0 & _) & B). pose proof (R2 k sd x H) as (_ & J).
   destruct (enabled_or_rest x A0 A B J C) as [(a & Q & E)|D]; [|exact D].
   exfalso. apply E. apply S. exact Q.
 Qed.
@@ -298,7 +310,7 @@ Qed.
 Lemma rest_connected_stuck x : rest_connected x -> stuck_quiet x.
 Proof.
   unfold rest_connected, unreadable, stuck_quiet, qstep, realistic.
-  intros (E1 & E2 & E3 & E4 & E5 & E6 & E7 & E8 & (E9 & E10 & E11) & E12 & E13 & E14) a Q.
+  intros (E1 & E2 & E3 & E4 & E5 & E6 & E7 & E8 & (E9 & E10 & E11) & E12 & E13 & E14 & E15 & E16 & E17 & E18) a Q.
   destruct x; cbn in *; subst. destruct a; try discriminate Q.
   all: try solve [vm_compute; reflexivity].
   all: try match goal with o : rxout |- _ => destruct o; try discriminate Q end.
@@ -348,8 +360,8 @@ Qed.
 Lemma reconnect_pending_asked x : reach x -> reconnect_pending x -> asked x.
 Proof.
   intros H P. pose proof (RNB x H) as (_ & (_ & B2 & _)). unfold reconnect_pending in P. unfold asked.
-  destruct (trace x) eqn:E; [|left; discriminate]. destruct (B2 eq_refl) as (Br & _ & Bs & _).
-  destruct P as [P|[P|[[P _]|P]]]; auto; [congruence|lia].
+  destruct (trace x) eqn:E; [|left; discriminate]. destruct (B2 eq_refl) as (Br & _ & Bs & _ & _ & _ & _ & Bc).
+  destruct P as [P|[P|[[P _]|[P|P]]]]; auto; [congruence|lia|lia].
 Qed.
 
 Lemma qrun_reach ls : forall x y, reach x -> st x <> Closed -> asked x -> qrun x ls = Some y ->
@@ -360,7 +372,7 @@ Proof.
   - destruct (qstep x a) eqn:Qa; [|discriminate]. destruct (T x a) as [z|] eqn:E; [|discriminate].
     pose proof (RNB x H) as ((A0 & _) & B).
     destruct (asked_step x a z A0 B C G Qa E) as [C' G'].
-    apply (IH z y); auto. exact (reachable_step _ _ _ _ _ _ _ _ _ H E).
+    apply (IH z y); auto. exact (reachable_step _ _ _ _ _ _ _ _ _ _ H E).
 Qed.
 
 (* D. every maximal quiet run from a non-CLOSED state in which a connect() was asked for is finite (at most [lmu x] steps) and
@@ -387,21 +399,21 @@ End Live.
 (* ---------------- the label-only notion of "quiet" is too weak for the MODEL (over-approximations, see the header) ---------------- *)
 Definition rwait_state : list act := [AConsStart; AUserConnect; AConnEntry true; AImplOk CbRet; ARxStart; ARxIter RxSusp].
 
-Lemma run_repeat_fixpoint k fe fc fl fd fg s a : trans k fe fc fl fd fg s a = Some s ->
-  forall n, run k fe fc fl fd fg s (repeat a n) = Some s.
+Lemma run_repeat_fixpoint k sd fe fc fl fd fg s a : trans k sd fe fc fl fd fg s a = Some s ->
+  forall n, run k sd fe fc fl fd fg s (repeat a n) = Some s.
 Proof. intros E. induction n as [|n IH]; simpl; [reflexivity|]. now rewrite E. Qed.
 
 Example quiet_only_refuted_spurious_wakeup : exists s,
-  run KEByte true true true true true init rwait_state = Some s /\ quiet (ARxIter RxSusp) = true /\
-  forall n, run KEByte true true true true true s (repeat (ARxIter RxSusp) n) = Some s.
+  run KEByte false true true true true true init rwait_state = Some s /\ quiet (ARxIter RxSusp) = true /\
+  forall n, run KEByte false true true true true true s (repeat (ARxIter RxSusp) n) = Some s.
 Proof.
   eexists. split; [vm_compute; reflexivity|]. split; [reflexivity|].
   apply run_repeat_fixpoint. vm_compute. reflexivity.
 Qed.
 
 Example quiet_only_refuted_unbounded_queue : exists s,
-  run KEByte true true true true true init (rwait_state ++ [AEnvFeed 13]) = Some s /\
-  forall N, 0 <= N -> exists y, trans KEByte true true true true true s (ARxIter (RxRet 0 N)) = Some y /\ q y = N.
+  run KEByte false true true true true true init (rwait_state ++ [AEnvFeed 13]) = Some s /\
+  forall N, 0 <= N -> exists y, trans KEByte false true true true true true s (ARxIter (RxRet 0 N)) = Some y /\ q y = N.
 Proof.
   eexists. split; [vm_compute; reflexivity|]. intros N HN.
   unfold trans, allowed; unf_helpers; unfold ret_ok; cbn. zb. cbn. eexists. split; reflexivity.
@@ -413,15 +425,15 @@ Definition quiet_recovery : list act :=
   [ARxIter (RxRet 7 1); ARxIter (RxRaise 0 CbRet); AConsGot RcRet; AConnEntry true; AImplOk CbRet; ARxStart; ARxIter RxSusp].
 
 Example recovery_inevitable_example : exists x y,
-  run KEByte true true true true true init post_fault = Some x /\ st x = Conn /\ eof x = true /\
-  qrun KEByte x quiet_recovery = Some y /\ stuck_quiet KEByte y /\ rest_connected KEByte y /\
+  run KEByte false true true true true true init post_fault = Some x /\ st x = Conn /\ eof x = true /\
+  qrun KEByte false x quiet_recovery = Some y /\ stuck_quiet KEByte false y /\ rest_connected KEByte y /\
   trace y = [Conn; Disc; Conn] /\ (length quiet_recovery <= lmu x)%nat.
 Proof.
   eexists. eexists. split; [vm_compute; reflexivity|]. split; [reflexivity|]. split; [reflexivity|].
   split; [vm_compute; reflexivity|].
   assert (rest_connected KEByte
-            (match qrun KEByte
-               (match run KEByte true true true true true init post_fault with Some x => x | None => init end) quiet_recovery
+            (match qrun KEByte false
+               (match run KEByte false true true true true true init post_fault with Some x => x | None => init end) quiet_recovery
              with Some y => y | None => init end)) as RC.
   { vm_compute. repeat split; reflexivity. }
   split; [apply rest_connected_stuck; exact RC|]. split; [exact RC|]. split; [reflexivity|]. vm_compute. lia.
